@@ -52,6 +52,10 @@ def run_check(prop):
     return r.returncode, keys, r.stdout + r.stderr
 
 
+class Drift(Exception):
+    """the seeded edit no longer applies to the source under test (the source moved on): the case is skipped"""
+
+
 def apply_edits(edits):
     repo = os.path.join(ST, "repo")
     for e in edits:
@@ -59,13 +63,19 @@ def apply_edits(edits):
             # undo one of the `fix:` commits (the defect it repaired is the seeded violation)
             r = sh("git -C %s show %s | git -C %s apply -R" % (repo, e["revert"], repo))
             if r.returncode != 0:
-                raise SystemExit("cannot revert %s: %s" % (e["revert"], r.stderr))
+                raise Drift("cannot revert %s: %s" % (e["revert"], r.stderr[:200]))
+            continue
+        if "patch" in e:
+            # a stored seeded change (/verif/seeded/<id>/patch.diff)
+            r = sh("git -C %s apply %s" % (repo, os.path.join(VERIF, e["patch"])))
+            if r.returncode != 0:
+                raise Drift("patch %s does not apply: %s" % (e["patch"], r.stderr[:200]))
             continue
         p = os.path.join(repo, e["file"])
         s = open(p).read()
         n = s.count(e["find"])
         if n != 1:
-            raise SystemExit("edit does not match exactly once (%d) in %s: %r" % (n, e["file"], e["find"][:80]))
+            raise Drift("edit does not match exactly once (%d) in %s: %r" % (n, e["file"], e["find"][:80]))
         s = s.replace(e["find"], e["replace"])
         open(p, "w").write(s)
 
@@ -93,13 +103,20 @@ def main():
     prepare()
     baseline = {}
     failed = 0
+    skipped = 0
     results = []
     for pid, c in cases:
         sh("git -C %s/repo checkout -- . && git -C %s/repo clean -fdq -e target" % (ST, ST))
         if pid not in baseline:
             rc, keys, _ = run_check(pid)
             baseline[pid] = set(keys)
-        apply_edits(c["edits"])
+        try:
+            apply_edits(c["edits"])
+        except Drift as e:
+            print("SKIP %s/%s: %s" % (pid, c["name"], e))
+            results.append({"case": c["name"], "kind": c["kind"], "skipped": str(e)})
+            skipped += 1
+            continue
         rc, keys, out = run_check(pid)
         new = [k for k in keys if k not in baseline[pid]]
         if rc == 2:
@@ -117,10 +134,10 @@ def main():
             failed += 1
     if not keep:
         shutil.rmtree(ST, ignore_errors=True)
-    print("selftest: %d cases, %d failed" % (len(cases), failed))
+    print("selftest: %d cases, %d failed, %d skipped" % (len(cases), failed, skipped))
     if os.environ.get("VERIF_ST_SUMMARY"):
         with open(os.environ["VERIF_ST_SUMMARY"], "w") as fh:
-            json.dump({"cases": len(cases), "failed": failed, "results": results}, fh)
+            json.dump({"cases": len(cases), "failed": failed, "skipped": skipped, "results": results}, fh)
     return 1 if failed else 0
 
 
